@@ -801,6 +801,19 @@ func CurrentTask() int { return int(s.current) }
 //go:norace
 func Steps() int { return int(s.steps) }
 
+var hookFn func(site int, arg any)
+
+// SetHook installs the function called by Hook (nil removes it). Call outside a run.
+func SetHook(f func(site int, arg any)) { hookFn = f }
+
+// Hook is an observation point the instrumenter places after selected calls. The installed function runs only
+// while a single task is alive (it may read the simulated system's state without racing with it).
+func Hook(site int, arg any) {
+	if hookFn != nil && Active() && alone() {
+		hookFn(site, arg)
+	}
+}
+
 // Probe counts that a branch of interest was reached.
 //
 //go:norace
